@@ -233,6 +233,10 @@ func genC01Case(t *rapid.T) (*ScalarCase, bool) {
 			near = false
 		}
 		switch {
+		case (key == "eq" || key == "noeq") && !bigLen && rapid.IntRange(0, 5).Draw(t, "boundAsText") == 3:
+			// the value READS like the bound (a status code sent as text): it is measured by its length all the same
+			c.T, c.Val = desc.Scalar("string"), desc.Str(strconv.FormatInt(b, 10))
+			near = true
 		case !bigLen && n >= 3 && rapid.IntRange(0, 11).Draw(t, "invalidRun") == 7:
 			// a run of bytes that are no valid UTF-8: every such byte counts as one character (Go's reading of a string)
 			run := rapid.SampledFrom([]string{"\xf0\x9f\x98", "\xff\xfe", "\x80\x80\x80", "\xed\xa0\x80"}).Draw(t, "run")
